@@ -8,7 +8,7 @@ from lib.gallina import gstr, gbool, glist, gpair, gopt, gnat
 ID = "C06"
 RUN_MODULE = "RunC06"
 DRIVER = "keys_driver.py"
-SHARD = 250
+SHARD = 160
 MAX_DRIVER_SHARDS = 2     # keep neighbouring cases in one interpreter (history-dependent behaviour)
 ALT_ENVS = [{"PYTHONHASHSEED": "1"}, {"PYTHONHASHSEED": "2"}]
 RULE = ("random calls (alias, capture selection all/none/by position/by name, static or instance, nested args/kwargs in "
@@ -20,6 +20,14 @@ RULE = ("random calls (alias, capture selection all/none/by position/by name, st
         "plays one operation whose 4 worker threads make 25 intercepted calls each with the SAME argument objects (ordinal "
         "by position or keyword, shared options positional or keyword, capture all / by position / by name, static and "
         "instance; interleaving forced by a gate object inside the shared argument, or a 10 us switch interval); "
+        "a lookup probe declares the input as the current version of a service does - plain or resolver-formatted alias, "
+        "fallback_aliases as a list or a function (1-3 aliases, now and then the main alias / one alias twice) - next to one "
+        "older version per fallback alias, records the call and its siblings (the same call with the alias texts swapped "
+        "inside the argument values) through those versions (all by one old version, or mixed / twice / not at all) and plays "
+        "the recording through the current version; alias texts are names contained in one another, words of the key layout "
+        "(args, kwargs, input) and of the value encoding (py/tuple, null, a class path) and occur inside the captured values "
+        "(string, part of a string, dict key, attribute name, nested), capture all / none / by position / by name, static "
+        "and instance; "
         "non-trivial = at least one captured container argument or keyword; distinct = distinct case")
 ASSUMPTIONS = ["float repr() is taken from the implementation side (floats are repr texts in the model); every float text "
                "the harness sends is checked against the grammar Values.JsonWf.float_repr_ok that the injectivity theorem "
@@ -37,7 +45,10 @@ THEOREMS = ["C06_key_deterministic_partial", "C06_excluded_args_irrelevant", "C0
             "C06_key_injective", "C06_key_injective_concrete", "C06_dumps_injective", "C06_dumps_self_delimiting",
             "C06_flatten_well_formed", "C06_dumps_not_injective_outside_domain_refuted", "C06_flatten_roundtrip",
             "C06_set_order_refuted"]
-TRUSTED = ["harness-side mirror of the capture selection used by the collision search"]
+TRUSTED = ["harness-side mirror of the capture selection used by the collision search",
+           "harness-side mirror of the alias resolver of the lookup probe ({p} = text of one positional argument) and of "
+           "'first alias in lookup order that has an entry for the same captured values' used to say what a replayed call "
+           "must receive; the looked-up keys are observed by wrapping TapeRecorder._playback_recorded_interception"]
 
 ALIASES = ["get_user", "db.fetch", "a b", "x", "get_user_2", "svc:{id}", "é", "in#1", "a args", "kw, x"]
 
@@ -197,6 +208,171 @@ def thread_probe(rng, tier):
     return out
 
 
+# alias texts for the lookup probe: names a renamed input plausibly had (one a part of the other), words of the key's own
+# layout, and texts that occur in the encoding of ordinary values (class path, tags, JSON literals); none contains '='
+LOOKUP_ALIASES = ["customer", "account", "user", "user_v1", "get_user", "order", "args", "kwargs", "input", "a", "1", "null",
+                  "py/tuple", "py/object", "Pt", "lib.pyvals", "x", "e", ", ", "é", "id"]
+LOOKUP_TEMPLATES = ["svc:{p}", "{p}", "{p}.load", "lit{{{p}}}"]
+
+
+def subst_texts(j, old, new):
+    """The same value with `old` replaced by `new` in every str leaf, dict key and attribute name."""
+    t = j["t"]
+    if t == "str":
+        return pv.s(j["v"].replace(old, new))
+    if t in ("list", "tuple"):
+        return {"t": t, "v": [subst_texts(x, old, new) for x in j["v"]]}
+    if t in ("dict", "obj"):
+        out = dict(j)
+        items, seen = [], set()
+        for k, v in j["v"]:
+            k2 = k.replace(old, new)
+            if k2 in seen or k2.startswith("py/") or (t == "obj" and not k2.isidentifier()):
+                k2 = k      # (jsonpickle drops dict keys that look like its own tags: outside the faithful domain)
+            seen.add(k2)
+            items.append([k2, subst_texts(v, old, new)])
+        out["v"] = items
+        return out
+    return j
+
+
+def voc_val(rng, texts, depth=2):
+    """A value whose encoding holds one of `texts`: as a string, inside a longer string, as a dict key, as an attribute
+    name, nested in containers; now and then an ordinary random value."""
+    t = rng.choice(texts)
+    k = rng.randrange(10 if depth > 0 else 4)
+    if k == 0:
+        return pv.s(t)
+    if k == 1:
+        return pv.s(rng.choice(["%s/17", "id:%s", "%s", "old %s new", "%s%s"]).replace("%s", t))
+    if k == 2:
+        return pv.rand_pyval(rng, 2)
+    if k == 3:
+        return pv.i(rng.randrange(20))
+    if k in (4, 5):
+        return pv.lst([voc_val(rng, texts, depth - 1) for _ in range(rng.randrange(1, 3))])
+    if k == 6:
+        return pv.tup([voc_val(rng, texts, depth - 1), pv.i(1)])
+    if k in (7, 8):
+        return pv.dct([(t if not t.startswith("py/") else "key", voc_val(rng, texts, depth - 1)), ("k", pv.s(rng.choice(texts)))])
+    name = t if t.isidentifier() else "name"
+    return {"t": "obj", "cls": rng.choice(list(pv.CLASSES)), "v": [[name, voc_val(rng, texts, depth - 1)]]}
+
+
+def lookup_case(rng, alias, resolver, fallbacks, fb_kind, static, cap, args, kwargs, scenario):
+    """One case of the lookup probe (see keys_driver.run_lookup): sibling calls = the call with the alias texts swapped
+    inside its argument values (same shape, other values), recorded next to it."""
+    case = dict(alias=alias, cap=cap, static=static, args=args, kwargs=kwargs, variants=[], via_decorator=False,
+                probe="fallback-lookup")
+    case["lookup"] = lk = dict(resolver=resolver, fallbacks=fallbacks, fb_kind=fb_kind, calls=[], rec=[])
+    main = fmt_alias(case, args)
+    names = [main if main is not None else alias] + fallbacks
+    seen = {captured(dict(case, alias=""), args, kwargs)}
+    pairs = [(a, b) for a in names for b in names if a != b and a]
+    rng.shuffle(pairs)
+    for old, new in pairs:
+        a2 = [x if (not static and i == 0) else subst_texts(x, old, new) for i, x in enumerate(args)]
+        k2 = [[n, subst_texts(v, old, new)] for n, v in kwargs]
+        if resolver is not None:       # the resolver's argument keeps its text: the siblings share the formatted alias
+            ri = resolver + (0 if static else 1)
+            a2[ri] = args[ri]
+        ident = captured(dict(case, alias=""), a2, k2)
+        if ident is not None and ident not in seen and len(lk["calls"]) < 3:
+            seen.add(ident)
+            lk["calls"].append([a2, k2])
+    n = 1 + len(lk["calls"])
+    if scenario == "old":          # everything was recorded by one old version of the service
+        v = rng.randrange(1, len(fallbacks) + 1)
+        order = list(range(n))
+        rng.shuffle(order)
+        lk["rec"] = [[v, ci] for ci in order]
+    else:                          # calls recorded by any version, some by two of them, some not at all
+        for ci in range(n):
+            for v in rng.sample(range(0, len(fallbacks) + 1), min(rng.choice([0, 1, 1, 1, 2]), len(fallbacks) + 1)):
+                lk["rec"].append([v, ci])
+        rng.shuffle(lk["rec"])
+    return case
+
+
+def lookup_probe(rng, tier):
+    """Lookups through fallback aliases and resolver-formatted aliases (always in the quick tier).  The texts of the
+    aliases involved occur inside the captured argument values (and some aliases are words of the key layout / of the
+    value encoding), so a lookup key that is not built from (that alias, the captured values) shows."""
+    out = []
+    # fixed family: a renamed input, its argument shapes, every capture kind
+    fam = [("customer", ["account"]), ("user", ["user_v1"]), ("user_v1", ["user", "get_user"]), ("args", ["old"]),
+           ("x", ["kwargs", "input"]), ("a", ["b"]), ("null", ["1"]), ("Pt", ["Qt"]), ("py/tuple", ["py/set"]),
+           ("svc:{p}", ["svc", "customer"])]
+    for k, (alias, fbs) in enumerate(fam):
+        texts = [alias.replace("{p}", "customer")] + fbs
+        t = texts[0]
+        shapes = [[pv.s(t + "/17")], [pv.s(t)], [pv.dct([(t if not t.startswith("py/") else "key", pv.i(1))]), pv.i(5)], [pv.lst([pv.s("id:" + t), pv.none()])],
+                  [pv.i(3), {"t": "obj", "cls": "lib.pyvals.Pt", "v": [["name", pv.s(t)]]}], [pv.tup([pv.i(1), pv.i(2)])],
+                  [pv.i(7)]]
+        for j, user in enumerate(shapes):
+            static = (j + k) % 2 == 0
+            resolver = None
+            if "{p}" in alias:
+                user = [pv.s("customer")] + user
+                resolver = 0
+            kwargs = [["opt", pv.s(fbs[0] + " or " + t)]] if j % 3 == 1 else []
+            cap = None if j % 3 != 2 else [[(0 if static else 1), "zz"], [None, "opt"]]
+            args = ([] if static else [pv.s("SELF")]) + user
+            out.append(lookup_case(rng, alias, resolver, fbs, "fun" if j % 4 == 3 else "list", static, cap, args, kwargs,
+                                   "old" if j % 2 == 0 else "mixed"))
+    for _ in range(100 if tier == "quick" else 1500):
+        resolver = None
+        if rng.random() < 0.3:
+            alias = rng.choice(LOOKUP_TEMPLATES)
+            resolver = 0
+        else:
+            alias = rng.choice(LOOKUP_ALIASES)
+        fbs = rng.sample(LOOKUP_ALIASES, rng.choice([1, 1, 2, 3]))
+        if rng.random() < 0.1:
+            fbs.append(alias if resolver is None else fbs[0])      # the main alias / an alias twice among the fallbacks
+        texts = [x for x in [alias.replace("{{", "").replace("}}", "").replace("{p}", "")] + fbs if x]
+        static = rng.random() < 0.5
+        user = [voc_val(rng, texts) for _ in range(rng.randrange(0 if resolver is None else 1, 4))]
+        if resolver is not None:
+            user[0] = pv.s(rng.choice(texts + ["17", "a b"]))
+        names = rng.sample(["a", "b", "opt"], rng.randrange(0, 3))
+        kwargs = [[n_, voc_val(rng, texts, 1)] for n_ in names]
+        r = rng.random()
+        if r < 0.6:
+            cap = None
+        elif r < 0.7:
+            cap = []
+        else:
+            lo = 0 if static else 1
+            poss = list(range(lo, lo + len(user))) + [None]
+            cap, used = [], set()
+            for _ in range(rng.randrange(1, 4)):
+                pos = rng.choice(poss)
+                if pos in used:
+                    pos = None
+                used.add(pos)
+                cap.append([pos, rng.choice([None, "a", "b", "opt"])])
+        args = ([] if static else [pv.s("SELF")]) + user
+        out.append(lookup_case(rng, alias, resolver, fbs, rng.choice(["list", "list", "fun"]), static, cap, args, kwargs,
+                               rng.choice(["old", "mixed"])))
+    return out
+
+
+def fmt_alias(case, args):
+    """Harness-side mirror of the alias resolver of the lookup probe: {p} = the text of one positional argument."""
+    lk = case["lookup"]
+    if lk.get("resolver") is None:
+        return case["alias"]
+    user = args if case["static"] else args[1:]
+    i = lk["resolver"]
+    if i >= len(user) or user[i]["t"] != "str":
+        return None
+    try:
+        return case["alias"].format(p=user[i]["v"])
+    except Exception:      # noqa
+        return None
+
+
 def generate(rng, tier):
     n = 500 if tier == "quick" else 6000
     cases = []
@@ -210,6 +386,7 @@ def generate(rng, tier):
             c["body"] = rand_body(brng)
     cases += mutation_probe(brng, tier)
     cases += thread_probe(brng, tier)
+    lrng = random.Random(brng.random())
     # near-collision families: same alias, arguments that differ only in type / nesting / position
     fam = [[pv.i(1)], [pv.b(True)], [{"t": "float", "r": "1.0"}], [pv.s("1")], [pv.lst([pv.i(1)])], [pv.tup([pv.i(1)])],
            [pv.i(1), pv.i(2)], [pv.lst([pv.i(1), pv.i(2)])], [pv.tup([pv.i(1), pv.i(2)])], [pv.s("1, 2")],
@@ -258,6 +435,7 @@ def generate(rng, tier):
         c = dict(alias="setcall", cap=None, static=True, args=[{"t": "set", "v": [pv.s(e) for e in elems]}], kwargs=[],
                  variants=[], probe="F06")
         cases.append(c)
+    cases += lookup_probe(lrng, tier)
     return cases
 
 
@@ -291,7 +469,7 @@ def gcap(cap):
 
 def to_gallina(case, obs):
     if "driver_exception" in obs:
-        return 'Case (U"") CapAll true [] [] (Some (U"driver exception")) None'
+        return 'Case (U"") CapAll true [] [] (Some (U"driver exception")) None []'
     # the model gets the values as the implementation saw them (sets in their actual iteration order)
     args = obs.get("seen_args", case["args"])
     kwargs = obs.get("seen_kwargs", case["kwargs"])
@@ -300,10 +478,22 @@ def to_gallina(case, obs):
     dec = "None"
     if "dec_saved" in obs:
         dec = "(Some %s)" % gopt(None if obs["dec_key"] is None else gstr(obs["dec_key"]))
-    return "Case %s %s %s %s %s %s %s" % (
+    lookups = []
+    lk, lo = case.get("lookup"), obs.get("lookup") or {}
+    if lk and "calls" in lo:
+        calls = [[case["args"], case["kwargs"]]] + lk["calls"]
+        for (a, kw), r in zip(calls, lo["calls"]):
+            if not all(coq_ok(x) for x in a) or not all(coq_ok(v) for _, v in kw):
+                continue
+            lookups.append("(Lookup %s (%s %s) %s %s %s)" % (
+                "RNone" if lk["resolver"] is None else "(RArg %s)" % gnat(lk["resolver"]),
+                "FbList" if lk["fb_kind"] == "list" else "FbFun", glist([gstr(x) for x in lk["fallbacks"]]),
+                glist([pv.to_pyval(x) for x in a]), glist([gpair(gstr(k), pv.to_pyval(v)) for k, v in kw]),
+                gopt(None if r["keys"] is None else glist([gstr(x) for x in r["keys"]]))))
+    return "Case %s %s %s %s %s %s %s %s" % (
         gstr(case["alias"]), gcap(case["cap"]), gbool(case["static"]),
         glist([pv.to_pyval(x) for x in args]), glist([gpair(gstr(k), pv.to_pyval(v)) for k, v in kwargs]),
-        gopt(None if obs["key"] is None else gstr(obs["key"])), dec)
+        gopt(None if obs["key"] is None else gstr(obs["key"])), dec, glist(lookups))
 
 
 def explain(case, obs):
@@ -318,6 +508,62 @@ def conc_summary(cc):
                                      "n_replay_wrong", "rec_errors", "replay_errors")}
     ex = {f: [str(x)[:400] for x in (cc.get(f) or [])[:1]] for f in ("missing", "extra", "replay_wrong")}
     return json.dumps(counts, ensure_ascii=False)[:600] + " e.g. " + json.dumps(ex, ensure_ascii=False)
+
+
+def direct_lookup(case, lo):
+    """The lookup probe: (a) the key looked up for the main / a fallback alias is exactly the key the same call gets
+    under that alias (from the key builder, and the one an older version of the service stored it under); (b) every call
+    receives what was recorded for the same captured argument values under the first of its aliases that has such an
+    entry, nothing live - never a value recorded for another call - and is not found if there is none."""
+    lk = case["lookup"]
+    if "err" in lo:
+        return [("decorator-raises", lo["err"])]
+    if not lo.get("saved"):
+        return [("fallback-key-differs", "the operation of the lookup probe left no recording (an input key could not be "
+                 "built while recording): %r" % (lo,))]
+    fails = []
+    calls = [[case["args"], case["kwargs"]]] + lk["calls"]
+    blank = dict(case, alias="")
+    idents = [captured(blank, a, kw) for a, kw in calls]
+    names = [[fmt_alias(case, a)] + lk["fallbacks"] for a, kw in calls]
+    # (a) stored keys of the entries = key builder's key for (alias of that version, call)
+    for n, (vi, ci) in enumerate(lk["rec"]):
+        want = lo["want_keys"][ci]
+        if want is not None and lo["entries"][n] != want[vi] and want[vi] not in lo["entries"][:n]:
+            fails.append(("decorator-key-differs", "entry %d: the version with alias %r stored call %d under %r, the key "
+                          "builder gives %r" % (n, names[ci][vi], ci, lo["entries"][n], want[vi])))
+            break
+    for ci, r in enumerate(lo["calls"]):
+        want = lo["want_keys"][ci]
+        if r["keys"] != want:
+            j = next((j for j in range(len(want or [])) if r["keys"] is None or j >= len(r["keys"]) or r["keys"][j] != want[j]),
+                     None)
+            fails.append(("fallback-key-differs", "call %d is looked up under %r; the same call under alias %r has the key %r "
+                          "(aliases in lookup order %r)" % (ci, r["keys"], None if j is None else names[ci][j],
+                                                            None if j is None else want[j], names[ci])))
+            break
+    # (b) outcome
+    for ci, r in enumerate(lo["calls"]):
+        if names[ci][0] is None or idents[ci] is None:
+            exp = ["keyerr", "InputInterceptionKeyCreationError"]
+        else:
+            exp = ["miss", "RecordingKeyError"]
+            for al in names[ci]:
+                hits = [n for n, (vi, cj) in enumerate(lk["rec"]) if names[cj][vi] == al and idents[cj] == idents[ci]]
+                if hits:
+                    exp = ["value", "R%d" % hits[-1]]
+                    break
+        if r["got"] != exp or r["live"] != 0:
+            what = "received %r (live executions %d)" % (r["got"], r["live"])
+            if r["got"][0] == "value" and r["got"][1].startswith("R"):
+                vi, cj = lk["rec"][int(r["got"][1][1:])]
+                what += " = what the version with alias %r recorded for call %d, arguments %s" % (
+                    names[cj][vi], cj, json.dumps(calls[cj], ensure_ascii=False)[:300])
+            fails.append(("fallback-lookup-wrong-value", "call %d (aliases in lookup order %r, arguments %s) %s; the recording "
+                          "holds %s for it; entries [version, call] = %r" %
+                          (ci, names[ci], json.dumps(calls[ci], ensure_ascii=False)[:300], what, exp, lk["rec"])))
+            break
+    return fails
 
 
 def direct(case, obs):
@@ -359,6 +605,8 @@ def direct(case, obs):
             fails.append(("concurrent-key-differs", "calls made by %d threads at the same time with shared argument objects "
                           "are not stored / looked up under the keys the same calls get one after the other (%s): %s" %
                           (case["conc"]["threads"], ", ".join(bad), conc_summary(cc))))
+    if case.get("lookup"):
+        fails += direct_lookup(case, obs.get("lookup") or {})
     for k, a in enumerate(obs.get("alt", [])):
         if a is not None and "dec_saved" in obs and a.get("dec_key") != obs.get("dec_key") and not setty:
             fails.append(("hash-seed-dependent", "decorator key differs under PYTHONHASHSEED=%s: %r vs %r" %
@@ -388,6 +636,12 @@ def features(case):
          "static" if case["static"] else "instance", "kwargs=%d" % len(case["kwargs"])}
     if case.get("probe"):
         f.add("probe:" + case["probe"])
+    if case.get("lookup"):
+        lk = case["lookup"]
+        f.add("alias:" + ("resolver-formatted" if lk["resolver"] is not None else "plain"))
+        f.add("fallback_aliases:%s x%d" % (lk["fb_kind"], min(len(lk["fallbacks"]), 3)))
+        f.add("recorded-by:" + ("current-version" if any(v == 0 for v, _ in lk["rec"]) else "older-versions-only"))
+        f.add("sibling-calls=%d" % len(lk["calls"]))
     for x in case["args"]:
         f.add("arg:" + x["t"])
     if case.get("via_decorator"):
@@ -402,7 +656,7 @@ def nontrivial(case):
 
 MANIFEST = dict(
     design_ref='6/C06',
-    text="Coq theorems over all aliases, capture selections and tree-shaped argument values: the key text is a function of alias and captured values up to dict/attribute insertion order (deterministic_partial: sets carry their iteration order), arguments excluded from capture and kwargs order are irrelevant, keys are injective on (alias, captured values) for aliases without '=' and captured values in the domain vdom = wf (tree shaped, distinct unreserved keys, no lone surrogates) and leaves_ok (float texts in the float.__repr__ grammar, bytes < 256), given only that the quoted-printable oracle is invertible and maps byte strings to surrogate-free text (both proved for the concrete encoder: C06_key_injective_concrete has no oracle premise); nothing is assumed about json.dumps any more: its injectivity and the self-delimiting text of arrays/objects are proved on the well-formed trees jwf via a verified parser (parse_value fuel (dumps j ++ rest) = Some (j, rest)), flatten maps the value domain into jwf, and witnesses show both facts fail outside jwf; flatten/restore round-trip on the faithful domain; the set-order clause is refuted with a witness (known finding F06). Model (select, flatten, dumps, ikey) tied to /repo on every run by comparing the exact key text of _input_interception_key, and the key found in a recording made through the real decorators, with the model's; direct predicate: same call under two other PYTHONHASHSEED values gives the same key, and no two distinct (alias, captured args) share a key; the key the decorator stores is the key of the argument values AT THE CALL whatever the intercepted function then does to them (grow / drain / edit in place, raise), and the same call made again while that recording is played receives the recorded outcome without a live execution; calls made at the same time by 4 worker threads of one operation with shared argument objects are stored and looked up under exactly the keys the same calls get one after the other.",
+    text="Coq theorems over all aliases, capture selections and tree-shaped argument values: the key text is a function of alias and captured values up to dict/attribute insertion order (deterministic_partial: sets carry their iteration order), arguments excluded from capture and kwargs order are irrelevant, keys are injective on (alias, captured values) for aliases without '=' and captured values in the domain vdom = wf (tree shaped, distinct unreserved keys, no lone surrogates) and leaves_ok (float texts in the float.__repr__ grammar, bytes < 256), given only that the quoted-printable oracle is invertible and maps byte strings to surrogate-free text (both proved for the concrete encoder: C06_key_injective_concrete has no oracle premise); nothing is assumed about json.dumps any more: its injectivity and the self-delimiting text of arrays/objects are proved on the well-formed trees jwf via a verified parser (parse_value fuel (dumps j ++ rest) = Some (j, rest)), flatten maps the value domain into jwf, and witnesses show both facts fail outside jwf; flatten/restore round-trip on the faithful domain; the set-order clause is refuted with a witness (known finding F06). Model (select, flatten, dumps, ikey) tied to /repo on every run by comparing the exact key text of _input_interception_key, and the key found in a recording made through the real decorators, with the model's; direct predicate: same call under two other PYTHONHASHSEED values gives the same key, and no two distinct (alias, captured args) share a key; the key the decorator stores is the key of the argument values AT THE CALL whatever the intercepted function then does to them (grow / drain / edit in place, raise), and the same call made again while that recording is played receives the recorded outcome without a live execution; calls made at the same time by 4 worker threads of one operation with shared argument objects are stored and looked up under exactly the keys the same calls get one after the other; the keys an interception with a resolver / fallback aliases looks up while playing are, in order, the key of the call under the formatted alias and under each fallback alias (compared with the model Recorder.Exec.input_keys, with the key builder and with the keys older versions of the input stored), and every replayed call receives what was recorded for the same captured values under the first of those aliases present - never the value of a sibling call whose arguments differ only by an alias text.",
     note='Trusted: Coq kernel + vm_compute; hand-written model of jsonpickle 0.9.3 flatten + json.dumps on the tree domain; quoted-printable for bytes is an oracle (two premises, theorems for the simple encoder); the float grammar float_repr_ok describes float.__repr__ on CPython with float_repr_style=short (validated against the interpreter, enforced on every float the harness sends); correspondence harness. One clause (sets) is a known finding, reported as KNOWN-FINDING.',
     technique='Coq proof (induction over value trees, sorting/permutation lemmas, verified JSON parser for the printer) + exact key-text correspondence by vm_compute + two-hash-seed differential run',
 )
